@@ -62,7 +62,7 @@ pub fn run_c18u(ctx: &mut Ctx, from: u64, to: u64, tiny: bool) {
                     ctx.begin_case(k);
                     p_sentence::run_c05r(ctx, k, k + 1);
                     ctx.begin_case(k);
-                    parsed_sentences(ctx, k, 6);
+                    parsed_sentences(ctx, k, 3);
                 }
                 _ => p_score::run_c14(ctx, k, k + 1, true),
             }
